@@ -332,7 +332,7 @@ class SpawnTerminate(Contract):
         new = v.new.self
         out = pty_base(v)
         if v.raised is None:
-            out += [('C10:true-only-if-dead-and-reaped', Implies(v.result, And(new.terminated, new.ptyproc.terminated,
+            out += [('C09+C10:true-only-if-dead-and-reaped', Implies(v.result, And(new.terminated, new.ptyproc.terminated,
                                                                                 fields_are_fate(new, v.g))))]
         return out
 
@@ -373,6 +373,9 @@ class SpawnClose(Contract):
         else:
             # the descriptor was closed by ptyprocess before it gave up on the child: pexpect must not keep the number
             out += [('C10:no-stale-descriptor-after-failed-close', eq(new.child_fd, -1))]
+        # either way the object calls itself closed exactly when ptyprocess has closed the descriptor and dealt with
+        # the child (close() relies on this on entry: a failed close must not turn later closes into no-ops)
+        out += [('C10:closed-exactly-when-ptyprocess-is-closed', eq(new.closed, new.ptyproc.closed))]
         return out
 
 
